@@ -37,7 +37,7 @@ FIXED_TEXTS = [
 def tasks(tier, seed):
     global CASE_TIMEOUT
     CASE_TIMEOUT = 2.5 if tier == "quick" else 6.0
-    n = 2400 if tier == "quick" else 48000
+    n = 1600 if tier == "quick" else 48000
     shards = 48 if tier == "quick" else 192
     t = [(MOD, "hyp", (n // shards, seed * 1_000_003 + i, tier)) for i in range(shards)]
     t.append((MOD, "fixed", ()))
